@@ -204,3 +204,35 @@ fn c17_gearsets_body_as_long_as_whole_file() { body_longer_than_file(21); }
 #[kani::proof]
 #[kani::unwind(24)]
 fn c17_gearsets_body_between() { body_longer_than_file(12); }
+
+/// the write-side name conversion keeps every byte of a name that fits the 47-byte field (46 bytes + terminator):
+/// all ASCII names of the given (concrete) length, symbolic bytes
+fn gearset_name_case<const L: usize>() {
+    let b: [u8; L] = kani::any();
+    let mut i = 0;
+    while i < L { kani::assume(b[i] != 0 && b[i] < 0x80); i += 1; }
+    let name = unsafe { String::from_utf8_unchecked(b.to_vec()) };
+    let ns = convert_from_string(&name);
+    assert_eq!(ns.0.len(), L);
+    let k: usize = kani::any();
+    kani::assume(k < L);
+    assert_eq!(ns.0[k], b[k]);
+    // and back
+    let back = convert_to_string(ns);
+    assert_eq!(back.len(), L);
+    assert_eq!(back.as_bytes()[k], b[k]);
+    kani::cover!(true);
+    core::mem::forget((name, back));
+}
+#[kani::proof]
+#[kani::unwind(50)]
+#[kani::stub(core::str::validations::run_utf8_validation, crate::verif_support::refs::ascii_utf8_validation)]
+fn c09_gearset_name_len46() { gearset_name_case::<46>(); }
+#[kani::proof]
+#[kani::unwind(50)]
+#[kani::stub(core::str::validations::run_utf8_validation, crate::verif_support::refs::ascii_utf8_validation)]
+fn c09_gearset_name_len45() { gearset_name_case::<45>(); }
+#[kani::proof]
+#[kani::unwind(50)]
+#[kani::stub(core::str::validations::run_utf8_validation, crate::verif_support::refs::ascii_utf8_validation)]
+fn c09_gearset_name_len1() { gearset_name_case::<1>(); }
